@@ -134,6 +134,22 @@ def parse_blocked(line):
     return res
 
 
+def monitor_exe(ctx, flavour):
+    """harness/monitor_drv.cc names the mutex and the condition variables after the private members of the classes.  When
+    a source change renamed / merged them the harness no longer compiles; instead of giving up the search for a failing
+    input it is then built with -DVERIF_ANON_SYNC (scheduler-assigned names m0../c0.., no `# mon` snapshots): the traces
+    no longer compare with the model's, but the oracle still judges every all-blocked end state and every result."""
+    from . import build
+    try:
+        return ctx.exe("monitor_drv", flavour)
+    except build.BuildError as ex:
+        ctx.notes.append("monitor_drv (%s) does not build with member names (%s); rebuilt with -DVERIF_ANON_SYNC, oracle only"
+                         % (flavour, ex.output.strip().split("\n")[1][:160] if "\n" in ex.output.strip() else ex.what))
+        ctx.search_mode = True
+        ctx.extra["anon_sync"] = True
+        return ctx.exe("monitor_drv", flavour, cxxflags="-DVERIF_ANON_SYNC")
+
+
 def oracle_c14(case, block):
     """the property C14 evaluated on one schedule run of the implementation; returns [(kind, description)]"""
     kind = case.kind()
@@ -227,6 +243,12 @@ def oracle_c14(case, block):
         if kind == "latch":
             if count <= 0:
                 return [("nobody_stuck", "%s although the count is %d: `%s`" % (what, count, ended))]
+        elif re.match(r"c\d+$", obj):
+            # fallback build of the harness (condition variables not named after the members): judged by the operation alone
+            if label == "take" and q:
+                return [("nobody_stuck", "%s although the queue holds %s: `%s`" % (what, q, ended))]
+            if label == "put" and (cap is None or len(q) < cap):
+                return [("nobody_stuck", "%s although the queue holds %d of %s elements: `%s`" % (what, len(q), cap, ended))]
         elif label == "take" and obj == "notEmpty":
             if q:
                 return [("nobody_stuck", "%s although the queue holds %s: `%s`" % (what, q, ended))]
